@@ -18,7 +18,7 @@ def register(mod):
 
 def get(pid):
     if pid not in _ALL:
-        for m in ("props_query", "props_derive", "props_io", "props_paths", "props_misc"):
+        for m in ("props_query", "props_derive", "props_io", "props_paths", "props_misc", "props_api"):
             try:
                 register(__import__(m))
             except ImportError:
